@@ -119,8 +119,9 @@ class Raw:
 
 
 class Unit:
-    def __init__(self, name, preludes, items, mods=None, uses=None, keys_from=None, doc=""):
+    def __init__(self, name, preludes, items, mods=None, uses=None, keys_from=None, doc="", broadcasts=("axiom_duplex", "bit_commute")):
         self.name = name
+        self.broadcasts = tuple(broadcasts)  # module-level `broadcast use` groups (prelude/base.rs)
         self.preludes = preludes
         self.items = items
         self.mods = mods  # module order
